@@ -13,7 +13,7 @@ DEFAULT = dict(
     nb=(1, 3), p_parallel=0.2, maxh=[50, 50, 50, None, 2, 3, 4], p_timeout=0.0, p_forward=0.12, p_sync=0.2,
     nh=(1, 6), proglen=(0, 5), ntasks=(1, 2), tasklen=(1, 6), p_wild=0.15, p_raise=0.05, p_readbus=0.04,
     p_redispatch=0.03, p_multikey=0.05, wild_dispatch=False, p_waitidle=0.1, p_parent=0.03, p_wal=0.0,
-    p_stop=0.0, p_expect=0.0, p_cancelrl=0.0, p_notimeout=0.1, p_walfault=0.0, p_payload=0.0, p_cleanup=0.15, p_samenames=0.0, par_timeouts=False,
+    p_stop=0.0, p_expect=0.0, p_cancelrl=0.0, p_notimeout=0.1, p_walfault=0.0, p_payload=0.0, p_cleanup=0.15, p_samenames=0.0, p_dupnames=0.15, p_retry=0.1, par_timeouts=False,
 )
 
 PAYLOADS = [
@@ -129,13 +129,19 @@ def gen_core(rng, **over):
             h['prog'] = gen_prog(rng, o, '*', nb, kind)
         if key != '*' and rng.random() < 0.3:
             h['byclass'] = True          # registered with the event class instead of the type name
+        if kind in ('async', 'sync') and rng.random() < 0.35 and not (h['prog'] and h['prog'][-1][0] == 'raise'):
+            h['prog'].append(['return', {f"k{len(sc['handlers'])}": len(sc['handlers']), 'shared': len(sc['handlers']) % 2}])      # (non-empty dict values: the flat-dict accessor merges them)
+        if kind == 'async' and rng.random() < o['p_retry']:
+            h['retry'] = True            # decorated with bubus.helpers.retry (no retries, no semaphore, a far per-attempt timeout)
         if rng.random() < 0.15:
-            h['method'] = True           # registered as a bound method of an object
+            h['method'] = rng.choice([True, True, 'own', 'other'])   # registered as a bound method of an object / of a bus object
         sc['handlers'].append(h)
     for x in range(rng.randint(*o['ntasks'])):
         sc['tasks'].append(gen_task(rng, o, nb, x == 0))
     if o['p_samenames'] and rng.random() < o['p_samenames']:
         sc['same_names'] = True
+    if o['p_dupnames'] and rng.random() < o['p_dupnames']:
+        sc['dup_names'] = True           # all handlers share one function name (same-factory closures; `on()` only warns)
     return sc
 
 
@@ -281,10 +287,44 @@ def gen_parraise(rng, **_):
     for j in range(rng.choice([2, 2, 3])):
         sc['handlers'].append({'bus': cb, 'key': 'C', 'kind': 'async',
                                'prog': [['sleep', rng.choice([1 / 16, 1 / 8]) if j == 0 else rng.choice([0, 1 / 64])]]})
-    main = [['dispatch', 0, 'A', 0], ['await', 0]]
+    if rng.random() < 0.5:
+        # the event with the raising handler is itself a child awaited inside a handler (of D, on the other bus)
+        sc['handlers'].append({'bus': 1, 'key': 'D', 'kind': 'async',
+                               'prog': [['dispatch', 0, 'A', 0], ['await', 0], ['sleep', rng.choice([0, 1 / 64])]]})
+        main = [['dispatch', 1, 'D', 0], ['await', 0]]
+    else:
+        main = [['dispatch', 0, 'A', 0], ['await', 0]]
     if rng.random() < 0.5:
         main += [['dispatch', 0, 'A', 1], ['await', 1]]
     sc['tasks'].append(main)
+    return sc
+
+
+def gen_deepfwd(rng, **_):
+    """a chain of 3-5 nested events all dispatched on one bus that forwards everything ('*') to other buses (which may forward
+    on, or back), each level awaited or not; only per-type handlers besides the forwards"""
+    n = rng.randint(2, 3)
+    depth = rng.choice([3, 4, 4, 5])
+    order = ['A', 'B', 'C', 'D', 'E'][:depth]
+    sc = {'buses': [{'parallel': False, 'maxh': 50, 'wal': False} for _ in range(n)],
+          'types': {t: {'timeout': None} for t in 'ABCDE'}, 'handlers': [], 'tasks': []}
+    for li, t in enumerate(order):
+        prog = []
+        if li < depth - 1:
+            prog = [['dispatch', 0, order[li + 1], 0]]
+            if rng.random() < 0.7:
+                prog.append(['await', 0])
+            if rng.random() < 0.3:
+                prog.append(['sleep', 1 / 64])
+        sc['handlers'].append({'bus': 0, 'key': t, 'kind': 'async', 'prog': prog})
+        if rng.random() < 0.5:
+            sc['handlers'].append({'bus': rng.randrange(1, n), 'key': t, 'kind': rng.choice(['async', 'sync']), 'prog': []})
+    sc['handlers'].insert(rng.randrange(len(sc['handlers']) + 1), {'bus': 0, 'key': '*', 'kind': 'forward', 'target': 1, 'prog': []})
+    if n == 3:
+        sc['handlers'].append({'bus': rng.choice([0, 1]), 'key': '*', 'kind': 'forward', 'target': 2, 'prog': []})
+    if rng.random() < 0.4:
+        sc['handlers'].append({'bus': n - 1, 'key': '*', 'kind': 'forward', 'target': 0, 'prog': []})
+    sc['tasks'].append([['dispatch', 0, 'A', 0], ['await', 0]])
     return sc
 
 
